@@ -129,7 +129,7 @@ func lemmaOrder(a, b ID) bool {
 
 // ---- NewID: the id gives back the ssid it was created for (C19), carries the query-key prefix (C06)
 
-// @ verify NewID pre=pre_NewID post=post_NewID_len,post_NewID_words,post_NewID_time,post_NewID_seq props=C19,C06
+// @ verify NewID pre=pre_NewID post=post_NewID_len,post_NewID_words,post_NewID_time,post_NewID_seq props=C19,C06,C07
 // @ loop NewID 0 inv inv_NewID modifies=id
 func pre_NewID(ssid Ssid) bool { return len(ssid) >= 2 && len(ssid) <= 65536 }
 func inv_NewID(rangeindex int, ssid Ssid, id ID) bool {
@@ -686,15 +686,25 @@ func post_Frame_Limit(f *Frame, n int, old_f Frame) bool {
 // Ssid constructors (C02, C03, C06, C07, C18: tenant isolation and presence addressing rest on them): the ssid of
 // a channel is the CONTRACT word followed by the channel's level hashes, in order; the presence ssid of an ssid is
 // the two system words followed by that ssid; for any number of levels (append with variadic copy: unbounded).
-//@ verify NewSsid pre=pre_NewSsid post=post_NewSsid props=C02,C03,C06,C07 qinst
+// @ verify NewSsid pre=pre_NewSsid post=post_NewSsid,post_NewSsid_frame props=C02,C03,C06,C07 qinst
 func pre_NewSsid(query []uint32) bool { return len(query) <= 1<<20 }
 func post_NewSsid(contract uint32, query []uint32, res0 Ssid) bool {
 	return len(res0) == len(query)+1 && res0[0] == contract &&
 		vs.Forall(0, len(query), func(i int) bool { return res0[1+i] == query[i] })
 }
 
-//@ verify NewSsidForPresence pre=pre_NewSsidForPresence post=post_NewSsidForPresence props=C18 qinst
+func post_NewSsid_frame(query []uint32, old_query []uint32, res0 Ssid) bool {
+	return vs.DisjointOf([]uint32(res0), query) && vs.Forall(0, len(query), func(i int) bool { return query[i] == old_query[i] })
+}
+
+// @ verify NewSsidForPresence pre=pre_NewSsidForPresence post=post_NewSsidForPresence,post_NewSsidForPresence_frame props=C18,C08 qinst
 func pre_NewSsidForPresence(original Ssid) bool { return len(original) <= 1<<20 }
+
+// ... and it is a NEW ssid: the one it was made from is left as it was, whatever spare capacity it has (the
+// connection's bookkeeping keeps the original by reference; an in-place insert would corrupt it)
+func post_NewSsidForPresence_frame(original Ssid, old_original Ssid, res0 Ssid) bool {
+	return vs.DisjointOf(res0, original) && vs.Forall(0, len(original), func(i int) bool { return original[i] == old_original[i] })
+}
 func post_NewSsidForPresence(original Ssid, res0 Ssid) bool {
 	return len(res0) == len(original)+2 && res0[0] == system && res0[1] == presence &&
 		vs.Forall(0, len(original), func(i int) bool { return res0[2+i] == original[i] })
